@@ -7,6 +7,7 @@ import (
 	"bytes"
 	"fmt"
 	"net"
+	"runtime"
 	"strconv"
 	"strings"
 )
@@ -243,6 +244,28 @@ func init() {
 			return "inconsistent-string"
 		}
 		return "ok " + hxb(b)
+	})
+	// msg hostile: accept/reject of arbitrary bytes, with panic capture and an allocation bound
+	vReg("msg hostile", func(a []string) (res string) {
+		data := []byte(unhx(a[0]))
+		var ms0, ms1 runtime.MemStats
+		runtime.ReadMemStats(&ms0)
+		defer func() {
+			if r := recover(); r != nil {
+				res = "panic " + strings.ReplaceAll(strings.ReplaceAll(fmt.Sprintf("%v", r), " ", "_"), "\n", "_")
+			}
+		}()
+		_, err := ParseMessage(bufio.NewReaderSize(bytes.NewBuffer(data), len(data)))
+		runtime.ReadMemStats(&ms1)
+		out := "accepted"
+		if err != nil {
+			out = "rejected"
+		}
+		alloc := ms1.TotalAlloc - ms0.TotalAlloc
+		if alloc > uint64(256*len(data)+4*1024*1024) {
+			return out + " alloc=big:" + strconv.FormatUint(alloc, 10)
+		}
+		return out + " alloc=ok"
 	})
 	vReg("msg dialog", func(a []string) string {
 		m, err := ParseMessage(bufio.NewReader(bytes.NewReader([]byte(unhx(a[0])))))
